@@ -311,6 +311,28 @@ static inline void vf_seq_%(G)s_unique(struct vf_seq_%(G)s* s)
 }
 '''
 
+
+# only for scalar element types (builtin <): std::min_element / max_element / sort on ranges of at most VF_CAP elements
+SEQ_SCALAR = r'''
+static inline %(T)s* vf_seq_%(G)s_min_element_in(%(T)s* b, %(T)s* e) { size_t cnt = (size_t)(e - b); __CPROVER_assume(cnt <= VF_CAP); size_t best = 0; for (size_t i = 1; i < VF_CAP; i++) { if (i < cnt && b[i] < b[best]) best = i; } return b + best; }
+static inline %(T)s* vf_seq_%(G)s_max_element_in(%(T)s* b, %(T)s* e) { size_t cnt = (size_t)(e - b); __CPROVER_assume(cnt <= VF_CAP); size_t best = 0; for (size_t i = 1; i < VF_CAP; i++) { if (i < cnt && b[best] < b[i]) best = i; } return b + best; }
+static inline void vf_seq_%(G)s_sort_in(%(T)s* b, %(T)s* e, int desc)
+{ /* insertion sort: result is the sorted permutation (what std::sort guarantees for a strict weak order on scalars) */
+  size_t cnt = (size_t)(e - b);
+  __CPROVER_assume(cnt <= VF_CAP);
+  for (size_t i = 1; i < VF_CAP; i++) {
+    if (i < cnt) {
+      %(T)s v = b[i];
+      size_t j = i;
+      for (size_t k = 0; k < VF_CAP; k++) {
+        if (j > 0 && (desc ? (b[j - 1] < v) : (v < b[j - 1]))) { b[j] = b[j - 1]; j--; }
+      }
+      b[j] = v;
+    }
+  }
+}
+'''
+
 MINMAX = {
     "min": "static inline %(T)s vf_min_%(G)s(%(T)s a, %(T)s b) { return (b < a) ? b : a; }\n",
     "max": "static inline %(T)s vf_max_%(G)s(%(T)s a, %(T)s b) { return (a < b) ? b : a; }\n",
@@ -524,6 +546,8 @@ def gen_funcs(tm, lib):
         eq = ("memcmp(&b[i], &v, sizeof(%s)) == 0" % t) if is_structy(t) else "b[i] == v"
         out.append((SEQ % {"G": tag, "T": t, "EQ": eq}).split("/*FUNCS*/")[1])
         out.append(SEQ_EXTRA % {"G": tag, "T": t})
+        if not is_structy(t) and not t.endswith("*"):
+            out.append(SEQ_SCALAR % {"G": tag, "T": t})
         # resize(n, v): every new element is a COPY of v (a deep one when the elements are themselves sequences)
         copyv = "vf_seq_%s_copy(&v)" % t[len("struct vf_seq_"):] if t.startswith("struct vf_seq_") else "v"
         if t.startswith("struct vf_seq_"):
